@@ -40,6 +40,8 @@ fn main() {
         "C03" => props::c03::run(chk),
         "C04" => props::c04::run(chk),
         "C06" => props::c06::run(chk),
+        "C13" => props::c13::run(chk),
+        "C14" => props::c14::run(chk),
         _ => infra(&format!("no check for {id}")),
     }
 }
